@@ -3,6 +3,8 @@ package checks
 import (
 	"encoding/json"
 	"fmt"
+	"math"
+	"strconv"
 	"strings"
 
 	"github.com/vedadiyan/genql"
@@ -19,6 +21,58 @@ type C12Case struct {
 	Unordered bool           `json:"unordered,omitempty"`
 	Form      string         `json:"form"`
 	Position  string         `json:"position"`
+	// Mixed (form "mixed-kinds"): the values of column g of table t, as tokens "<go type>:<text>"; the
+	// document is built from them at check time because JSON cannot carry Go types. Column v numbers the rows.
+	Mixed []string `json:"mixed,omitempty"`
+}
+
+// c12MixedPool: values of different kinds and Go types that are equal under one notion of equality and
+// different under another (text vs number, -0 vs 0, float32 vs float64, 1e6 printed with an exponent).
+var c12MixedPool = []string{"s:1000000", "f64:1000000", "int:1000000", "f32:0.1", "s:0.1", "f64:0.1", "s:0", "f64:0", "f64:-0", "int:0", "u8:0", "s:1", "int:1", "f64:1", "i64:1",
+	"b:true", "s:true", "s:1e+06", "s:", "nil", "u64:1000000", "f32:1"}
+
+func c12MixedValue(tok string) any {
+	kind, text, _ := strings.Cut(tok, ":")
+	f, _ := strconv.ParseFloat(text, 64)
+	switch kind {
+	case "s":
+		return text
+	case "f64":
+		if text == "-0" {
+			return math.Copysign(0, -1)
+		}
+		return f
+	case "f32":
+		return float32(f)
+	case "int":
+		return int(f)
+	case "i64":
+		return int64(f)
+	case "u8":
+		return uint8(f)
+	case "u64":
+		return uint64(f)
+	case "b":
+		return text == "true"
+	}
+	return nil
+}
+
+func (c *C12Case) doc() map[string]any {
+	if c.Mixed == nil {
+		return val.CopyMap(c.Doc)
+	}
+	rows := make([]any, len(c.Mixed))
+	for i, tok := range c.Mixed {
+		rows[i] = map[string]any{"g": c12MixedValue(tok), "v": float64(i + 1)}
+	}
+	t2 := []any{}
+	for i, tok := range c.Mixed {
+		if i%2 == 0 {
+			t2 = append(t2, map[string]any{"g": c12MixedValue(tok), "w": float64(10 * (i + 1))})
+		}
+	}
+	return map[string]any{"t": rows, "t2": t2}
 }
 
 // expression forms; {c:NAME} is replaced by the (possibly prefixed) column reference
@@ -92,6 +146,27 @@ func c12Col(form string, prefix string) string {
 }
 
 func genC12(t *rapid.T) any {
+	if rapid.IntRange(0, 9).Draw(t, "mixed") == 0 {
+		// determinism does not depend on the column holding one kind of value: grouping, de-duplication, IN and
+		// joins over values of mixed kinds and Go types must give the same answer on every run
+		c := &C12Case{Form: "mixed-kinds", Unordered: true}
+		n := rapid.IntRange(2, 7).Draw(t, "mixed.n")
+		for i := 0; i < n; i++ {
+			c.Mixed = append(c.Mixed, rapid.SampledFrom(c12MixedPool).Draw(t, fmt.Sprintf("mixed.%d", i)))
+		}
+		c.Position = rapid.SampledFrom([]string{"group-by", "group-by-star", "distinct", "in-subquery", "join", "hash-join", "union", "where-equals"}).Draw(t, "mixed.pos")
+		c.SQL = map[string]string{
+			"group-by":      "SELECT g, COUNT(*) AS n, SUM(v) AS sv FROM t GROUP BY g",
+			"group-by-star": "SELECT COUNT(*) AS n, * FROM t GROUP BY g",
+			"distinct":      "SELECT DISTINCT g FROM t",
+			"in-subquery":   "SELECT v FROM t WHERE g IN (SELECT g FROM `<-t2`)",
+			"join":          "SELECT x.v, y.w FROM t x JOIN t2 y ON x.g = y.g",
+			"hash-join":     "SELECT x.v, y.w FROM t x LEFT HASH_JOIN t2 y ON x.g = y.g",
+			"union":         "SELECT g FROM t UNION SELECT g FROM t2",
+			"where-equals":  "SELECT a.v, (SELECT w FROM `<-t2` WHERE g = `<-.g`) AS ws FROM t a",
+		}[c.Position]
+		return c
+	}
 	if rapid.IntRange(0, 3).Draw(t, "wide") == 0 {
 		w := genWide(t, nil)
 		return &C12Case{Doc: w.Doc, SQL: w.SQL(-1, ""), Wrapped: w.Wrapped, Unordered: w.Unordered, Form: "wide", Position: w.Construct}
@@ -222,7 +297,7 @@ func checkC12(c *C12Case) Result {
 	opts := Opts{Wrapped: c.Wrapped}
 	run := func() Out {
 		injReset(0, 0)
-		return Run(val.CopyMap(c.Doc), c.SQL, opts, genql.WithVars(map[string]any{"reg": 1.0}), genql.WithConstants(map[string]any{"pi": 3.14}), genql.UnReportedErrors(func(error) {}))
+		return Run(c.doc(), c.SQL, opts, genql.WithVars(map[string]any{"reg": 1.0}), genql.WithConstants(map[string]any{"pi": 3.14}), genql.UnReportedErrors(func(error) {}))
 	}
 	first := run()
 	res.Execs++
@@ -246,7 +321,11 @@ func checkC12(c *C12Case) Result {
 		res.Violation = fmt.Sprintf("%s\n  result cannot be marshalled to JSON: %v", c.SQL, err)
 		return res
 	}
-	for i := 0; i < 2; i++ {
+	repeats := 2
+	if c.Mixed != nil {
+		repeats = 24 // choices that depend on the iteration order of a Go map show up in a fraction of the runs only
+	}
+	for i := 0; i < repeats; i++ {
 		again := run()
 		res.Execs++
 		if !again.OK() {
